@@ -40,16 +40,24 @@ Print Assumptions C10_counted.
 
 (* table level: every cell holds exactly the summed weights of the reads whose key matches and whose
    coordinate lies in that window (declarative; does not mention the bins functions) *)
-Theorem C10_cell : forall keep reflen b s k lo hi reads, 0 < s ->
-  cell (k, lo, hi) (table keep reflen b s reads) = decl_cell keep reflen b s (k, lo, hi) reads.
+Theorem C10_cell : forall keep b s k lo hi reads, 0 < s ->
+  cell (k, lo, hi) (table keep b s reads) = decl_cell keep b s (k, lo, hi) reads.
 Proof. exact table_cell_decl. Qed.
 Print Assumptions C10_cell.
 
 (* table total = sum over reads of weight x number of in-bounds windows containing the read *)
-Theorem C10_total : forall keep reflen b s reads,
-  total (table keep reflen b s reads) = spec_total keep reflen b s reads.
+Theorem C10_total : forall keep b s reads,
+  total (table keep b s reads) = spec_total keep b s reads.
 Proof. exact table_total. Qed.
 Print Assumptions C10_total.
+
+(* histories: several calls in one process (also several alignment files / contigs of different length in one
+   call, since every read carries the length of its own contig): call n yields exactly the table of its own
+   reads and options, whatever was counted before *)
+Theorem C10_history : forall calls n keep b s reads,
+  nth_error calls n = Some (keep, b, s, reads) -> nth_error (history calls) n = Some (table keep b s reads).
+Proof. exact history_nth. Qed.
+Print Assumptions C10_history.
 
 (* non-vacuity: a coordinate on a bin boundary, sliding and non-sliding *)
 Example C10_boundary : bins_t 30 30 30 = [(30, 60)] /\ bins_t 30 30 10 = [(10, 40); (20, 50); (30, 60)]
